@@ -285,6 +285,8 @@ def run(S, tier, rep):
         rejection(S, rep, dim)
     derived_classes(S, rep)
     eulerian_convenience_class(S, rep)
+    from .c10 import wrappers_forward_options
+    wrappers_forward_options(S, rep, rule="C17.w", family_root="IO", min_found=2)
     rep.require_min("C17.a", 20)
     rep.require_min("C17.g", 12)
     rep.require_min("C17.b", 30)
